@@ -224,7 +224,14 @@ fn judge_history(ctx: &mut Ctx, calls: &[Call], probe_fns: &[&'static str], prob
         };
     }
     for s in probe_syms {
-        b = b.with_rule(Rule::new(format!("__probe sym {s}"), BTreeMap::new(), Expr::symbol(*s))).expect("probe rule");
+        b = match b.with_rule(Rule::new(format!("__probe sym {s}"), BTreeMap::new(), Expr::symbol(*s))) {
+            Ok(b) => b,
+            Err(e) => {
+                // probe names are pairwise different strings: refusing one is a wrong duplicate verdict
+                ctx.violation("C15 probe-rule-refused", e.to_string(), case(String::new()));
+                return;
+            }
+        };
     }
     let rs = b.build();
     let outs = match guard(|| block_on(rs.evaluate_value(&Value::None)).map(|v| v.into_iter().map(|o| (o.rule.name().to_string(), match o.value { Ok(v) => Obs::Val(v), Err(e) => classify(&e) })).collect::<Vec<_>>())) {
@@ -440,7 +447,10 @@ fn run(ctx: &mut Ctx) {
     let long_b: &'static str = leak(&format!("{}b", "a".repeat(299)));
     let rn2: Vec<&'static str> = vec!["r", "r1", "r10", "r100", "r2", "R1", "r1 ", " r1", "r\u{e9}", "re\u{301}", "rule", "rules", "", " ", long_a, long_b, "x", "y", "z", "r3", "r4", "r5", "r6", "r7", "r8", "r9", "r11", "r12"];
     let fn2: Vec<&'static str> = vec!["f", "f1", "f10", "f2", "fa", "fab", "fabc", "F1", "f\u{e9}", "fe\u{301}", "g", "g_", "_g", "g1_", long_a, long_b, "h1", "h2", "h3", "h4", "h5", "h6", "h7", "h8", "h9", "in", "int", "inty", "1f", "f-1"];
-    let sn2: Vec<&'static str> = vec!["s", "s1", "s10", "S", "s ", "t", "u", "v", "w", long_a];
+    let mut sn2: Vec<&'static str> = vec!["s", "s1", "s10", "S", "s ", "t", "u", "v", "w", long_a];
+    for i in 0..30 {
+        sn2.push(leak(&format!("sym{i}")));
+    }
     for _ in 0..ctx.tier.of(400, 4_000) {
         let len = 30 + rng.below(90);
         let mut calls: Vec<Call> = vec![];
@@ -452,7 +462,11 @@ fn run(ctx: &mut Ctx) {
                 2 => Call::Function(fn2[rng.below(fn2.len())]),
                 3 => Call::Functions((0..1 + rng.below(4)).map(|_| fn2[rng.below(fn2.len())]).collect()),
                 4 => Call::Symbol(sn2[rng.below(sn2.len())], rng.below(1000) as i128),
-                _ => Call::Symbols((0..1 + rng.below(12)).map(|_| (sn2[rng.below(sn2.len())], rng.below(1000) as i128)).collect()),
+                _ => {
+                    let cap = if rng.chance(1, 3) { 60 } else { 12 };
+                    let n = 1 + rng.below(cap);
+                    Call::Symbols((0..n).map(|_| (sn2[rng.below(sn2.len())], rng.below(1000) as i128)).collect())
+                }
             };
             if model.clone().apply(&c).is_err() {
                 if rng.chance(1, 4) {
